@@ -57,7 +57,7 @@ Definition finish (io rq op : bool) (sn n : str) (num : N) (c : fcore) (lbl : pl
   if rq && op then Err "cannot be both required and optional"
   else if io && op
        then Err "optional oneof member"
-       else Ok (mkPres [mkField sn n num ty lbl op tn io] msgs (fc_enums c)
+       else Ok (mkPres [mkField sn n num ty lbl (op && negb (plabel_eqb lbl LRepeated)) tn io] msgs (fc_enums c)
                        (imps ++ if rq then [imp_validate; imp_ext] else [])).
 
 Lemma cv_property_eq ev path io num n rq op f :
@@ -267,7 +267,7 @@ Proof. intros H a Ha. apply H. apply in_or_app. right. exact Ha. Qed.
 (* the property-level wrapper: what [finish] yields *)
 Lemma finish_inv io rq op sn n num c lbl ty tn msgs imps r :
   finish io rq op sn n num c lbl ty tn msgs imps = Ok r ->
-  pr_fields r = [mkField sn n num ty lbl op tn io] /\ pr_msgs r = msgs /\ pr_enums r = fc_enums c.
+  pr_fields r = [mkField sn n num ty lbl (op && negb (plabel_eqb lbl LRepeated)) tn io] /\ pr_msgs r = msgs /\ pr_enums r = fc_enums c.
 Proof.
   unfold finish. destruct (rq && op); [discriminate|].
   destruct (io && _); [discriminate|]. intros H. inversion H. subst. cbn. auto.
